@@ -141,7 +141,7 @@ def _evaluate(H, D, case, ctx):
     if okmaps:
         gotI = {(nd[a], ed[b]) if a in nd else (nd[b], ed[a]) for a, b in BG.edges}
         C(gotI == {(v, e) for e in edges for v in mem[e]} and BG.number_of_nodes() == n + len(edges), ("bipartite-graph", "undirected", "incidences"), lambda: "%r" % (gotI,))
-        C(all(BG.nodes[a].get("bipartite") == 0 for a in nd) and all(BG.nodes[b].get("bipartite") == 1 for b in ed), ("bipartite-graph", "undirected", "bipartite-attribute"), "")
+        C(all(a in BG and BG.nodes[a].get("bipartite") == 0 for a in nd) and all(b in BG and BG.nodes[b].get("bipartite") == 1 for b in ed), ("bipartite-graph", "undirected", "bipartite-attribute"), "")
     # ---- encapsulation DAG
     if not has_empty:
         allp_ = {(a, b) for a in edges for b in edges if a != b and mem[b] < mem[a]}
